@@ -6,6 +6,8 @@
 import BufrModel.Coder.Decode
 import BufrModel.Spec.Column
 import BufrModel.Gen.PyConstants
+import BufrModel.Gen.PyEncoder
+import BufrModel.Lemmas.NbitsSrc
 namespace Bufr
 open PyGen.constants
 
@@ -31,5 +33,23 @@ theorem C05_src_const_nbits_diff_spec_column (d : Nat) (raws : List (Option Nat)
       | some lo => toBits w lo ++ toBits NBITS_FOR_NBITS_DIFF.toNat d ++
           (if d = 0 then [] else raws.flatMap (Spec.incrBits d lo)) := by
   rfl
+
+/-- The increment width the encoder source computes for a column with minimum `lo` and maximum `hi`
+    (`nbits_for_uint(max_value - min_value + 1)`) is the width `nbitsForUInt (hi - lo + 1)` on which the
+    legal-width theorems of C05 (`C05_encoder_width_is_legal` …) rest: at least 2 bits, the all-ones pattern
+    stays free for "missing". -/
+theorem C05_src_nbits_for_uint (lo hi : Nat) (h : lo ≤ hi) :
+    PyGen.encoder.nbits_for_uint ((hi : Int) - (lo : Int) + 1) = (nbitsForUInt (hi - lo + 1) : Int) ∧
+    2 ≤ (PyGen.encoder.nbits_for_uint ((hi : Int) - (lo : Int) + 1)).toNat ∧
+    (hi - lo) + 1 ≤ 2 ^ (PyGen.encoder.nbits_for_uint ((hi : Int) - (lo : Int) + 1)).toNat - 2 := by
+  have hc : (hi : Int) - (lo : Int) + 1 = ((hi - lo + 1 : Nat) : Int) := by omega
+  rw [hc, NbitsSrc.gen_nbits_for_uint]
+  have h2 := nbitsForUInt_ge_two (hi - lo + 1) (by omega)
+  have hf := nbitsForUInt_fits (hi - lo + 1)
+  refine ⟨rfl, by simpa using h2, ?_⟩
+  simp only [Int.toNat_natCast]
+  omega
+
+example : ∃ lo hi : Nat, lo ≤ hi := ⟨3, 10, by decide⟩
 
 end Bufr
